@@ -291,7 +291,11 @@ class Check:
                         cls = m.group(1).strip()
                     # a watchdog expiry is re-run once, alone and with a generous limit, before it is called a hang (machine load)
                     rcmd = [exe] + base_args + ['--seed', str(self.seed), '--start', str(died or 0), '--cases', '1', '--case-seconds', '180']
-                    rc2, so2, se2, to2, _ = self.run_proc(rcmd, timeout=240)
+                    self._hang_reruns = getattr(self, '_hang_reruns', 0) + 1
+                    if self._hang_reruns <= 3:      # once a hang has been reproduced a few times further expiries are taken at face value
+                        rc2, so2, se2, to2, _ = self.run_proc(rcmd, timeout=240)
+                    else:
+                        so2, se2, to2 = '', '', True
                     if 'DONE' in so2 and not to2:
                         self.stats['watchdog_expiries_not_reproduced'] = self.stats.get('watchdog_expiries_not_reproduced', 0) + 1
                         w2 = WorkerOut()
